@@ -292,6 +292,9 @@ func genSubCase(t *rapid.T, rec *ev.Recorder) (*SubCase, []string) {
 	}
 	c := &SubCase{World: w, Conns: rapid.IntRange(1, 2).Draw(t, "conns"), RealWS: rapid.IntRange(0, 4).Draw(t, "realws") == 0}
 	c.Config.IDHint = rapid.IntRange(0, 2).Draw(t, "hint") == 0
+	if !gateClosed("sub.cachedPlanner") && rapid.IntRange(0, 2).Draw(t, "cached") == 0 {
+		c.Config.Planner, c.Config.TTLNs = "cached", int64(time.Hour)
+	}
 	nsubs := rapid.IntRange(1, 3).Draw(t, "nsubs")
 	labels := []string{}
 	for i := 0; i < nsubs; i++ {
@@ -315,6 +318,12 @@ func genSubCase(t *rapid.T, rec *ev.Recorder) (*SubCase, []string) {
 			continue
 		}
 		c.Subs = append(c.Subs, SubSpec{Conn: rapid.IntRange(0, c.Conns-1).Draw(t, "conn"), ID: fmt.Sprintf("s%d", i+1), Op: *op, Field: field})
+		// the same operation subscribed twice (with the caching planner both share one plan)
+		if i+1 < nsubs && rapid.IntRange(0, 2).Draw(t, "again") == 0 {
+			i++
+			c.Subs = append(c.Subs, SubSpec{Conn: rapid.IntRange(0, c.Conns-1).Draw(t, "conn2"), ID: fmt.Sprintf("s%d", i+1), Op: *op, Field: field})
+			labels = append(labels, "sameOperationTwice")
+		}
 	}
 	if len(c.Subs) == 0 {
 		return nil, nil
@@ -333,7 +342,7 @@ func genSubCase(t *rapid.T, rec *ev.Recorder) (*SubCase, []string) {
 	if c.RealWS {
 		labels = append(labels, "realWebsocketUpstream")
 	}
-	labels = append(labels, fmt.Sprintf("subs=%d", len(c.Subs)), fmt.Sprintf("conns=%d", c.Conns))
+	labels = append(labels, fmt.Sprintf("subs=%d", len(c.Subs)), fmt.Sprintf("conns=%d", c.Conns), "planner="+c.Config.Planner)
 	return c, labels
 }
 
